@@ -207,6 +207,9 @@ static void on_alarm(int) {
 	_exit(97);
 }
 
+// the driver ends a worker at the stage time limit with SIGTERM: what was counted so far is written down before leaving
+static void on_term(int) { dump_stats(); if (!g_scratch.empty()) rm_rf(g_scratch); _exit(96); }
+
 static unsigned g_case_timeout = 10;
 static void arm() { alarm(g_case_timeout); verif_cap_active = 1; }
 static void disarm() { alarm(0); verif_cap_active = 0; }
@@ -363,6 +366,7 @@ int main(int argc, char** argv) {
 	if (const char* s = getenv("VERIF_CASE_TIMEOUT")) g_case_timeout = atoi(s);
 	mkdir(g_outdir.c_str(), 0700);
 	signal(SIGALRM, on_alarm);
+	signal(SIGTERM, on_term);
 	// A descriptor that some path of the library does not give back (a refused open, a refused slice) shows only after about a thousand such
 	// calls in one process.  Every harness process therefore runs with a small descriptor budget (default 160; no case of any harness holds more
 	// than a few dozen at once), so that a leak of one descriptor per refused call turns into real, reportable failures of later lawful calls
